@@ -209,3 +209,19 @@ package band
 //@   loop 2: invariant enabled-valid: forall k int :: 0 <= k && k < len(enabledChannels) ==> 0 <= enabledChannels[k] && enabledChannels[k] < len(b.uplinkChannels)
 //@   loop 2: modifies pl
 //@   loop 2: decreases len(enabledChannels) - rangeindex
+
+// C15: the channel-mask CFList (plans without extra channels): after channel k the payload holds the
+// k/16 completed masks, each bit equal to the channel's enabled flag, and the running mask holds the bits
+// of the current block (unused bits false); one more mask is appended at the end, so n channels give
+// ceil(n/16) masks (at least one)
+//@ func (*band).getCFListChannelMask
+//@   props C15
+//@   modifies nothing
+//@   ensures present: result != nil
+//@   loop 0: invariant idx: rangeindex >= 0 - 1 && rangeindex < len(b.uplinkChannels)
+//@   loop 0: invariant masks-fresh: (len(pl.ChannelMasks) == 0 ==> cap(pl.ChannelMasks) == 0) && (len(pl.ChannelMasks) > 0 ==> fresh(pl.ChannelMasks))
+//@   loop 0: invariant count: len(pl.ChannelMasks) == ite(rangeindex < 0, 0, rangeindex / 16)
+//@   loop 0: invariant flushed: forall k int :: 0 <= k && k < len(pl.ChannelMasks) ==> forall j int :: 0 <= j && j < 16 ==> pl.ChannelMasks[k][j] == b.uplinkChannels[16*k+j].enabled
+//@   loop 0: invariant running: forall j int :: 0 <= j && j < 16 ==> chMask[j] == ite(rangeindex >= 0 && j <= rangeindex % 16, b.uplinkChannels[(rangeindex/16)*16 + j].enabled, false)
+//@   loop 0: modifies pl.ChannelMasks, chMask, c
+//@   loop 0: decreases len(b.uplinkChannels) - rangeindex
